@@ -325,22 +325,14 @@ URLS = [
 def run_url(scn):
     from pysmi import error
     from pysmi.reader.url import getReadersFromUrls
-    import socket
     viol = []
 
     def V(clause, msg, **facts):
         viol.append({'clause': clause, 'key': '%s|%s' % (clause, facts.get('what', '')), 'facts': facts, 'message': msg})
     url, want, attrs = URLS[scn['url']]
     w = core.World()
-    opened = []
-    real_socket = socket.socket
-
-    def no_socket(*a, **k):
-        opened.append(1)
-        raise OSError('network is partitioned in this simulation')
-    socket.socket = no_socket
-    old_to = socket.getdefaulttimeout()
-    try:
+    net = core.partitioned_network()
+    with net:
         with w:
             w.begin_op(0, 'url')
             try:
@@ -352,9 +344,7 @@ def run_url(scn):
             except BaseException as e:  # noqa
                 got, r = 'FOREIGN:%s' % type(e).__name__, None
             w.end_op(got)
-    finally:
-        socket.socket = real_socket
-        socket.setdefaulttimeout(old_to)
+    opened = [1] * net.attempts
     if got != want:
         V('C14.5-url', 'URL %s mapped to %s, its scheme/extension denote %s' % (url, got, want), what='url-kind', url=url)
     elif r is not None:
